@@ -209,6 +209,24 @@ Definition af_events_ok (hist : list op) (b a : snapshot) (evs : list event) : b
                             && match ev_sample e with SmAf s => af_listed s v | _ => false end)
                 afe newly.
 
+(* relative to the getter alone (C04): the callbacks of this call are exactly the frequencies
+   listed afterwards and not before, each once, at most two *)
+Definition ev_code (e : event) : Z :=
+  match ev_arg e with AFreq k => (k - 87500) / 100 | _ => -1 end.
+Definition af_changes_ok (hist : list op) (b a : snapshot) (evs : list event) : bool :=
+  let afe := filter is_af_event evs in
+  if list_eqb Z.eqb (sn_af a) (sn_af b) then match afe with [] => true | _ => false end
+  else
+    let newly := filter (fun v => af_listed (sn_af a) v && negb (af_listed (sn_af b) v))
+                        (map Z.of_nat (seq 0 256)) in
+    if h_cb hist FAF =? 0 then match afe with [] => true | _ => false end
+    else
+      (length afe <=? 2)%nat && Nat.eqb (length afe) (length newly)
+      && forallb (fun e => match ev_arg e with AFreq k => k =? 87500 + 100 * ev_code e | _ => false end
+                           && existsb (fun v => v =? ev_code e) newly
+                           && match ev_sample e with SmAf sm => af_listed sm (ev_code e) | _ => false end) afe
+      && Nat.eqb (length (dedup (map ev_code afe))) (length afe).
+
 Definition obs_C10 (hist : list op) (b a : snapshot) (evs : list event) (ret : Z) : bool :=
   let thr := if no_ext hist then 1 else if ext_scope hist then 2 else 0 in
   if thr =? 0 then true
@@ -470,6 +488,11 @@ Definition obs_C08 (hist : list op) (b a : snapshot) (evs : list event) (ret : Z
                && (if h_cb hist FRT =? 0 then true else (length rte =? 1)%nat)
              else
                all_cells n (fun i => addressed ws sl i || pair_eqb (tcell ta i) (tcell tb i))
+               (* ... and it is not ignored: if some addressed cell is due to change, one does *)
+               && (negb (existsb (fun '(sl', p, byte, e) =>
+                                    negb (pair_eqb (cell_after (cfg_corr b RT INFO) (cfg_corr b RT DATA) (cfg_prog b RT)
+                                                               (tcell tb p) byte (eb g) e) (tcell tb p))) ws)
+                   || existsb (fun '(sl', p, _, _) => negb (pair_eqb (tcell ta p) (tcell tb p))) ws)
         else
           tsnap_eqb (sn_rt0 a) (sn_rt0 b) && tsnap_eqb (sn_rt1 a) (sn_rt1 b)
           && match rte with [] => true | _ => false end
@@ -556,11 +579,8 @@ Definition obs_C04 (hist : list op) (b a : snapshot) (evs : list event) (ret : Z
           else
             match rte with [] => true | _ => false end
             && tsnap_eqb (sn_rt0 a) (sn_rt0 b) && tsnap_eqb (sn_rt1 a) (sn_rt1 b))
-      (* AF: one callback per frequency newly listed; nothing else became listed *)
-      && af_events_ok hist b a evs
-      && all_cells 256 (fun i => let v := Z.of_nat i in
-                                 Bool.eqb (af_listed (sn_af a) v) (af_listed (sn_af b) v)
-                                 || existsb (fun x => x =? v) (rx_af g))
+      (* AF: exactly one callback per frequency that became listed in this call, passing it *)
+      && af_changes_ok hist b a evs
       (* every callback got the user data most recently set and the registered function *)
       && forallb (fun e => (ev_cb e =? h_cb hist (ev_field e)) && negb (ev_cb e =? 0)) evs
     end
